@@ -3,6 +3,7 @@ package doif
 import (
 	"errors"
 	"fmt"
+	"math"
 	"slices"
 	"sync/atomic"
 	"time"
@@ -158,7 +159,16 @@ func (n *tsCmpOpNode) Check(data Data) bool {
 		return false
 	}
 
-	lhs := int(timeVal.UnixNano())
+	// UnixNano is undefined outside 1678..2262: such a time is before / after anything it can be compared with
+	var lhs int
+	switch year := timeVal.Year(); {
+	case year < 1678:
+		lhs = math.MinInt64
+	case year > 2261:
+		lhs = math.MaxInt64
+	default:
+		lhs = int(timeVal.UnixNano())
+	}
 
 	rhs := int64(0)
 	switch n.cmpValChangeMode {
